@@ -28,19 +28,36 @@ CLAIM = dict(
     "at the normalised start, coordinate(v) = parent coordinate(v + start) for every v, voxel size unchanged, time/date/series/scalar carried), "
     "nest (any program of subregion / VoxelArray / CoordinateArray / time_slice / time_interval steps of ANY length keeps the image placed "
     "in the root with composed offsets; induction over the program), physical_eq_voxel_box, time_slice / time_interval bookkeeping, "
-    "stack_slice (stack then time_slice returns data, dates and relative times). Tie: differential correspondence on random programs "
+    "stack_slice (stack then time_slice returns data, dates and relative times), append_offset_keeps_times (an explicit offset, 0 included, "
+    "keeps the stored relative times also for dated images), time_interval_keeps_stored_times. The relative time of a slab is what the parent "
+    "stored (roots with dates AND independent stored times are covered), not a function of its date. Tie: differential correspondence on random programs "
     "(exact, dyadic geometries) + oracle on the implementation tracing every voxel back to its root voxel.",
     note="geometry on general (non-dyadic) floats is only covered by the oracle with a stated tolerance; Image.slice / reduce_axis are not part of C02; "
     "tuple-of-slices reaching beyond the image are clipped since the fix of Image.subregion (before: outside the property's quantifier).",
     technique="Lean 4 proof (invariant over extraction programs) + differential correspondence + oracle search",
 )
 EPOCH = datetime(2020, 1, 1)
+OUTSIDE: dict = {}
+"""Counters of observed behaviour outside the property's quantifier (reported in the evidence, never a violation)."""
 EPS = Fraction(1, 2**52)
 SP = 4096  # spatial code base
 
 
 # ---------------------------------------------------------------------------
 # root images
+
+
+TKINDS = ("dates", "rel", "none", "both")
+"""dates: absolute dates only (relative times derived); rel: relative times only; both: dates AND explicitly stored
+relative times in another unit (stored time != date - reference date, as after append with offsets)."""
+
+
+def has_dates(r):
+    return r["tkind"] in ("dates", "both")
+
+
+def has_times(r):
+    return r["tkind"] in ("rel", "both")
 
 
 def gen_root(rng, rid, dim=None, series=None, shape=None, geom=None, tkind=None, vector=None, dyadic=True):
@@ -60,8 +77,8 @@ def gen_root(rng, rid, dim=None, series=None, shape=None, geom=None, tkind=None,
             dims = [10 ** rng.uniform(-3, 3) for _ in range(dim)]
             origin = None if rng.random() < 0.4 else [rng.uniform(-20, 20) * dims[rng.randrange(dim)] for _ in range(dim)]
         geom = (dims, origin)
-    tkind = tkind or rng.choice(("dates", "rel", "none"))
-    t0 = rng.randint(0, 50)
+    tkind = tkind or rng.choice(TKINDS)
+    t0 = rng.randint(1, 50)
     incs = [rng.randint(1, 30) for _ in range(T)]
     stamps = [t0 + sum(incs[:k]) for k in range(T)]
     return dict(rid=rid, dim=dim, shape=list(shape), dims=list(geom[0]), origin=geom[1], series=series, T=T, vector=vector,
@@ -85,10 +102,10 @@ def build_root(d, r):
     kw = dict(space_dim=r["dim"], dimensions=list(r["dims"]), scalar=not r["vector"], series=r["series"])
     if r["origin"] is not None:
         kw["origin"] = list(r["origin"])
-    if r["tkind"] == "dates":
+    if has_dates(r):
         ds = [EPOCH + timedelta(seconds=s) for s in r["stamps"]]
         kw["date"] = ds if r["series"] else ds[0]
-    elif r["tkind"] == "rel":
+    if has_times(r):
         ts = [float(s) / 4 for s in r["stamps"]]
         kw["time"] = ts if r["series"] else ts[0]
     return call(d.Image, root_array(r), **kw)
@@ -96,11 +113,11 @@ def build_root(d, r):
 
 def root_tokens(r, origin):
     cs = f"{r['dim']} {flist(r['shape'])} {flist(r['dims'])} {flist(origin)}"
-    if r["tkind"] == "rel":
+    if has_times(r):
         time = flist([Fraction(s, 4) for s in r["stamps"]])
     else:
         time = "none"
-    date = f"{r['T']} " + " ".join(str(s) if r["tkind"] == "dates" else "none" for s in r["stamps"])
+    date = f"{r['T']} " + " ".join(str(s) if has_dates(r) else "none" for s in r["stamps"])
     return f"{r['rid']} {cs} {int(r['series'])} {int(not r['vector'])} {r['T']} {time} {date}"
 
 
@@ -243,8 +260,9 @@ def gen_step(rng, d, im, dyadic=True, malformed=False):
     return f"sub {dim - 1} " + " ".join(sl_tok(s) for s in sls), (lambda x, sls=sls: x.subregion(sls))
 
 
-def trace_check(d, root_im, r, final, dyadic):
+def trace_check(d, root_im, r, final, dyadic, slabpos=None):
     """The statement, on the implementation: every voxel of `final` traced back to its root voxel.
+    `slabpos` (for series assembled from several arrays): (array id, time index) -> slab index in `root_im`.
     Returns list of (signature, what)."""
     fails = []
     dim = r["dim"]
@@ -265,7 +283,12 @@ def trace_check(d, root_im, r, final, dyadic):
     for k, (rid, t, sp, shape) in enumerate(slabs):
         if rid is None:
             continue
-        if rid != r["rid"]:
+        if slabpos is not None:
+            t = slabpos.get((rid, t))
+            if t is None:
+                fails.append(("C02:data:foreign-root", f"slab {k} comes from array {rid}, not part of the parent series"))
+                continue
+        elif rid != r["rid"]:
             fails.append(("C02:data:foreign-root", f"slab {k} comes from root {rid}"))
             continue
         # payload layout: vector components in order
@@ -307,7 +330,12 @@ def trace_check(d, root_im, r, final, dyadic):
         # time stamp and date of the slab it was taken from
         if fdate[k] != rdate[t]:
             fails.append(("C02:date-changed", f"slab {k} (root time index {t}): date {fdate[k]} vs root {rdate[t]}"))
-        if ftime[k] != rtime[t]:
+        if rtime[t] is None and rdate[t] is not None:
+            # only reachable by assembling images of DIFFERENT kinds (dated + undated) into one series: the series stores no
+            # relative time although the slab has a date, and a new image derives one from the date. Outside the property's
+            # quantifier (images carrying dates, relative times, or neither); the model mirrors it (correspondence).
+            OUTSIDE["time-derived-from-date-in-mixed-series"] = OUTSIDE.get("time-derived-from-date-in-mixed-series", 0) + 1
+        elif ftime[k] != rtime[t]:
             fails.append(("C02:time-changed", f"slab {k} (root time index {t}): time {ftime[k]} vs root {rtime[t]}"))
     return fails
 
@@ -394,7 +422,8 @@ def stack_case(d, rng, n, tkind, dim, with_offsets):
         stamp += rng.randint(1, 25)
         r["stamps"] = [stamp]
         rs.append(r)
-    offs = [rng.randint(0, 12) / 4 for _ in range(n - 1)] if with_offsets else None
+    # offsets: the falsy ones (0, 0.0) are legitimate offsets, not "no offset"
+    offs = [rng.choice([0, 0.0, 0, rng.randint(1, 12) / 4, float(rng.randint(1, 400))]) for _ in range(n - 1)] if with_offsets else None
     return stack_eval(d, rs, offs)
 
 
@@ -433,14 +462,15 @@ def stack_eval(d, rs, offs):
             fails.append(("C02:stack-then-time_slice:data", f"slice {k} of the stacked series is not image {k}"))
         if back.date != ims[k].date:
             fails.append(("C02:stack-then-time_slice:date", f"slice {k}: date {back.date} vs original {ims[k].date}"))
-        if tkind == "dates":
+        if tkind in ("dates", "both"):
+            # stack() (no offset) of dated images: relative to the first date; append(offset): the stored times, shifted
             want = (ims[k].date - ims[0].date).total_seconds() if not with_offsets else ims[k].time + (shift[k - 1] if k else 0)
         elif tkind == "rel":
             want = ims[k].time + (shift[k - 1] if k else 0)
         else:
             want = None
         if back.time != want:
-            cls = {"dates": "dates", "rel": "relative-times-only", "none": "no-time"}[tkind]
+            cls = {"dates": "dates", "rel": "relative-times-only", "none": "no-time", "both": "dates-and-times"}[tkind]
             fails.append((f"C02:stack-then-time_slice:time:{cls}{':offset' if with_offsets else ''}",
                           f"slice {k} of {'append(offset)' if with_offsets else 'stack'} of {n} images carrying {cls}: relative time {back.time}, required {want} (series time {res.time})"))
         if not np.array_equal(np.asarray(back.origin), np.asarray(ims[k].origin)) or list(back.dimensions) != list(ims[k].dimensions):
@@ -448,23 +478,100 @@ def stack_eval(d, rs, offs):
     return line, res, rs, offs, fails
 
 
-def append_series_eval(d, ra, rb, off):
+def assembled_eval(d, ra, rb, off, rng=None, steps=None):
+    """acc = A.append(B, offset); then an extraction program on acc (generated with rng, or the given step tokens).
+    Returns (model request line, implementation response, failures, step tokens)."""
     a, b2 = build_root(d, ra), build_root(d, rb)
     origin = [float(x) for x in np.asarray(a.origin)]
-    line = f"append {root_tokens(ra, origin)} {root_tokens(rb, origin)} {fmts([off])}"
+    head = f"append {root_tokens(ra, origin)} {root_tokens(rb, origin)} {'none' if off is None else fmts([off])}"
     acc = a.copy()
-    rr = call(acc.append, b2.copy(), off)
+    rr = call(acc.append, b2.copy()) if off is None else call(acc.append, b2.copy(), off)
     if isinstance(rr, Raised):
-        return line, repr(rr), [(f"C02:append(series, offset):raises:{rr!r}", f"appending a series with offset raises {rr!r}")]
-    dsc = call(describe, acc, {0: ra, 1: rb})
+        return head, repr(rr), [], []
     fails = []
-    want_t = list(a.time) + [t + off for t in as_list(b2.time, True)]
-    want_img = np.concatenate([a.img, b2.img if b2.series else np.expand_dims(b2.img, a.space_dim)], axis=a.space_dim)
-    if list(acc.time) != want_t:
-        fails.append(("C02:append(series, offset):time", f"relative times after append with offset {off}: {acc.time}, required {want_t}"))
+    ta, tb = as_list(a.time, True), as_list(b2.time, True)
+    da, db = as_list(a.date, True), as_list(b2.date, True)
+    want_img = np.concatenate([x.img if x.series else np.expand_dims(x.img, a.space_dim) for x in (a, b2)], axis=a.space_dim)
     if acc.img.shape != want_img.shape or not np.array_equal(acc.img, want_img):
-        fails.append(("C02:append(series, offset):data", "data after append are not the concatenation of the two series"))
-    return line, ("!undescribable" if isinstance(dsc, Raised) else dsc), fails
+        fails.append(("C02:append:data", "data after append are not the concatenation of the two images"))
+    if list(acc.date) != da + db:
+        fails.append(("C02:append:date", f"dates after append {acc.date}, required {da + db}"))
+    cls = f"{ra['tkind']}+{rb['tkind']}"
+    if None not in ta and None not in tb:
+        if off is not None:  # relative times with offsets: the stored times, those of the appended image shifted
+            want_t = ta + [t + off for t in tb]
+            if list(acc.time) != want_t:
+                fails.append((f"C02:append(offset):time:{cls}:offset={'zero' if off == 0 else 'nonzero'}",
+                              f"relative times after append(offset={off!r}) of images carrying {cls}: {acc.time}, required {want_t}"))
+        elif None not in da + db:
+            want_t = [(x - a.reference_date).total_seconds() for x in da + db]
+            if list(acc.time) != want_t:
+                fails.append((f"C02:append(no offset):time:{cls}", f"relative times {acc.time}, required date - reference date {want_t}"))
+        elif all(x is None for x in da + db):
+            if list(acc.time) != ta + tb:
+                fails.append((f"C02:append(no offset):time:{cls}", f"relative times {acc.time}, required {ta + tb}"))
+    # extraction program on the assembled series
+    roots = {0: ra, 1: rb}
+    slabpos = {(0, t): t for t in range(ra["T"])}
+    slabpos.update({(1, t): ra["T"] + t for t in range(rb["T"])})
+    im = acc
+    if steps is None:
+        steps = []
+        for _ in range(rng.randint(1, 3)):
+            tok, fn = gen_step(rng, d, im, True)
+            steps.append(tok)
+            parent, im = im, call(fn, im)
+            if isinstance(im, Raised) or any(n_ == 0 for n_ in im.img.shape[: im.space_dim]) or im.time_num == 0:
+                break
+    else:
+        for tok, fn in zip(steps, parse_steps(d, steps)):
+            im = call(fn, im)
+            if isinstance(im, Raised):
+                break
+    line = head + "".join(" ; " + t for t in steps)
+    if isinstance(im, Raised):
+        if ra["tkind"] == rb["tkind"]:
+            fails.append((f"C02:extraction:raises:{im!r}", f"valid extraction program on an assembled series raises {im!r}"))
+        else:  # e.g. undated receiver + dated image: time_slice derives a time from the date with reference date None -> TypeError
+            OUTSIDE[f"mixed-series-extraction-raises:{im!r}"] = OUTSIDE.get(f"mixed-series-extraction-raises:{im!r}", 0) + 1
+        return line, repr(im), fails, steps
+    dsc = call(describe, im, roots)
+    if not (any(n_ == 0 for n_ in im.img.shape[: im.space_dim]) or im.time_num == 0):
+        fails += trace_check(d, acc, ra, im, True, slabpos)
+    return line, ("!undescribable" if isinstance(dsc, Raised) else dsc), fails, steps
+
+
+def alias_eval(d, rp, mode):
+    """A sub-image / interval of a series, then append to IT: the parent's time bookkeeping must not change."""
+    P = build_root(d, rp)
+    dim = rp["dim"]
+    if mode == 0:
+        S = call(P.subregion, tuple(slice(0, max(1, n_ // 2 + 1)) for n_ in rp["shape"]))
+    elif mode == 1:
+        S = call(P.subregion, d.make_voxel(np.array([[0] * dim, list(rp["shape"])])))
+    else:
+        S = call(P.time_interval, slice(0, None))
+    if isinstance(S, Raised):
+        return [(f"C02:alias:extraction-raises:{S!r}", repr(S))]
+    before = (list(as_list(P.time, True)), list(as_list(P.date, True)), P.img.shape)
+    arr = np.zeros(tuple(S.img.shape[:dim]) + (() if S.scalar else S.img.shape[dim + 1:]))
+    kw = dict(space_dim=dim, dimensions=list(S.dimensions), origin=np.asarray(S.origin).copy(), scalar=S.scalar)
+    if has_dates(rp):
+        kw["date"] = EPOCH + timedelta(seconds=rp["stamps"][-1] + 1000)
+    if has_times(rp):
+        kw["time"] = 1.0
+    one = call(d.Image, arr, **kw)
+    if isinstance(one, Raised):
+        return []
+    r = call(S.append, one, 3.0)
+    if isinstance(r, Raised):
+        return []
+    after = (list(as_list(P.time, True)), list(as_list(P.date, True)), P.img.shape)
+    if after != before:
+        which = {0: "subregion(slices)", 1: "subregion(VoxelArray)", 2: "time_interval"}[mode]
+        return [(f"C02:extraction-result-aliases-parent:{which}:append",
+                 f"appending an image to the result of {which} changed the PARENT: time {before[0]} -> {after[0]}, date list length {len(before[1])} -> {len(after[1])}, data shape {before[2]}")]
+    return []
 
 
 def parse_steps(d, toks):
@@ -604,8 +711,10 @@ def run(ctx):
     # stack / append then slice
     for n in range(ctx.pick(60, 600)):
         k = rng.randint(2, 5)
-        tkind = ("dates", "rel", "none")[n % 3]
-        with_off = (n % 5 == 4) and tkind != "none"
+        tkind = TKINDS[n % 4]
+        with_off = (n % 3 == 2) and tkind != "none"
+        if with_off and n % 2 == 0:
+            k = 2  # two images: also a correspondence line for the model
         out = call(stack_case, d, rng, k, tkind, rng.choice((2, 3)), with_off)
         if out is None or isinstance(out, Raised):
             ctx.mark("CORR-BROKEN", {"correspondence": "stack", "error": repr(out)})
@@ -622,22 +731,42 @@ def run(ctx):
             else:
                 dsc = call(describe, res, {r["rid"]: r for r in rs})
                 impl.append("!undescribable" if isinstance(dsc, Raised) else dsc)
-    # append of two SERIES with an offset: times of the appended series are shifted, slabs concatenated
-    for n in range(ctx.pick(30, 300)):
-        ra = gen_root(rng, 0, series=True, tkind="rel")
-        rb = gen_root(rng, 1, dim=ra["dim"], series=rng.random() < 0.7, shape=tuple(ra["shape"]), geom=(ra["dims"], ra["origin"]), tkind="rel", vector=ra["vector"])
-        off = rng.randint(0, 40) / 4
-        line, dsc, fails = append_series_eval(d, ra, rb, off)
-        ctx.count(("append-series", line))
-        bump("append-series")
+    # series ASSEMBLED by append (offset None / 0 / 0.0 / non-zero; dated, undated, both, mixed), then extraction programs:
+    # every extracted slab must carry exactly the time and date the assembled series stores for it
+    for n in range(ctx.pick(120, 1500)):
+        ra = gen_root(rng, 0, tkind=TKINDS[n % 4])
+        kb = ra["tkind"] if rng.random() < 0.8 else rng.choice(TKINDS)
+        rb = gen_root(rng, 1, dim=ra["dim"], series=rng.random() < 0.5, shape=tuple(ra["shape"]), geom=(ra["dims"], ra["origin"]), tkind=kb, vector=ra["vector"])
+        if rng.random() < 0.95:  # dates of the appended image after those of the receiver (else: AssertionError on both sides)
+            shift = ra["stamps"][-1] + rng.randint(1, 20) - rb["stamps"][0]
+            rb["stamps"] = [x + shift for x in rb["stamps"]]
+        off = [None, 0, 0.0, rng.randint(1, 40) / 4, float(100 * rng.randint(1, 5))][n % 5]
+        out = call(assembled_eval, d, ra, rb, off, rng, None)
+        if isinstance(out, Raised):
+            ctx.mark("CORR-BROKEN", {"correspondence": "assembled", "roots": [ra, rb], "error": repr(out.exc)})
+            continue
+        line, dsc, fails, steps = out
+        ctx.count(("assembled", line))
+        bump(f"assembled:{ra['tkind']}+{rb['tkind']}:offset={'None' if off is None else ('zero' if off == 0 else 'nonzero')}")
         lines.append(line)
         impl.append(dsc)
         for sig, what in fails:
-            ctx.fail(sig, what, {"kind": "append-series", "program": line, "roots": [ra, rb], "offset": off, "signature": sig})
+            ctx.fail(sig, f"{what}; {line}", {"kind": "assembled", "program": line, "roots": [ra, rb], "offset": off, "steps": steps, "signature": sig})
+    # an extraction result must not share mutable time bookkeeping with its parent
+    for n in range(ctx.pick(20, 200)):
+        rp = gen_root(rng, 0, series=True, tkind=TKINDS[n % 4])
+        for sig, what in alias_eval(d, rp, n % 3):
+            ctx.fail(sig, what, {"kind": "alias", "roots": [rp], "mode": n % 3, "signature": sig})
+        ctx.count(("alias", json.dumps(rp), n % 3))
+        bump("alias")
     ctx.correspond("extraction-programs", lines, impl, driver="C02")
     ctx.cov["distribution"] = dict(sorted(dist.items()))
+    ctx.cov["outside_quantifier_observed"] = dict(OUTSIDE)
+    ctx.notes.append("series assembled from images of different kinds (dated + undated) store time None for dated slabs; time_slice then derives "
+                     "date - reference_date (or raises TypeError when the reference date is None). Mirrored by the model, outside the property's quantifier.")
     ctx.cov["exhaustive"] = False
-    ctx.cov["rule"] = ("random extraction programs of 1-4 steps over 2-D/3-D roots (scalar/vector, single/series, dates/relative times/neither); "
+    ctx.cov["rule"] = ("random extraction programs of 1-4 steps over 2-D/3-D roots (scalar/vector, single/series, dates/relative times/both/neither) and over "
+                       "series assembled by append with offset None/0/0.0/non-zero; stack/append round trips; aliasing of extraction results; "
                        "thorough adds every slice pair of every 2-D shape <= 5x5 as one-step programs; distinct = program line")
     ctx.assumptions += ["numpy basic slicing semantics", "dyadic geometries in the correspondence (exact float arithmetic)",
                         "payload encodes (root, time index, voxel) of every entry; block identity is decided on it"]
@@ -649,9 +778,12 @@ def replay(data):
 
     case = data.get("replay", data)
     want = case.get("signature", data.get("signature"))
-    if case.get("kind") == "append-series":
-        line, dsc, fails = append_series_eval(d, case["roots"][0], case["roots"][1], case["offset"])
+    if case.get("kind") == "assembled":
+        line, dsc, fails, _ = assembled_eval(d, case["roots"][0], case["roots"][1], case["offset"], None, case["steps"])
         print(f"C02 replay {line}\n  result: {dsc}")
+    elif case.get("kind") == "alias":
+        fails = alias_eval(d, case["roots"][0], case["mode"])
+        print(f"C02 replay alias mode={case['mode']} root={case['roots'][0]}")
     elif case.get("kind") == "stack":
         out = stack_eval(d, case["roots"], case["offsets"])
         fails = [("C02:stack:roots-unbuildable", "the images cannot be built")] if out is None else out[4]
